@@ -176,6 +176,31 @@ static bool ref_dec(const DT &t, const uint8_t *p, size_t n, size_t &pos, bool c
     return false;
 }
 
+// size of a decoded value (one per scalar / byte / container node) and of the value an exhausted input decodes to
+static size_t dv_nodes(const DT &t, const DV &v)
+{
+    size_t n = 1;
+    switch (t.k)
+    {
+    case DT::SC: return 1;
+    case DT::STR: case DT::BUF: return 1 + v.bytes.size();
+    case DT::VEC: for (auto &k : v.kids) n += dv_nodes(t.kids[0], k); return n;
+    case DT::MAP: for (auto &e : v.kids) n += 1 + dv_nodes(t.kids[0], e.kids[0]) + dv_nodes(t.kids[1], e.kids[1]); return n;
+    default: for (size_t i = 0; i < t.kids.size(); i++) n += dv_nodes(t.kids[i], v.kids.at(i)); return n;
+    }
+}
+static size_t dt_blank(const DT &t)
+{
+    size_t n = 1;
+    switch (t.k)
+    {
+    case DT::SC: case DT::STR: case DT::BUF: return 1;
+    case DT::VEC: return 1 + dt_blank(t.kids[0]);
+    case DT::MAP: return 2 + dt_blank(t.kids[0]) + dt_blank(t.kids[1]);
+    default: for (auto &k : t.kids) n += dt_blank(k); return n;
+    }
+}
+
 // ------------------------------------------------------------------ tags
 struct feat
 {
@@ -366,6 +391,13 @@ static void op_decode(char st, const std::string &desc, const std::string &inhex
     std::string got = show(dt, back[0]);
     o.result = got + " " + std::to_string(consumed);
     tag_value(dt, back[0], o);
+    {
+        // cost model: what a decode can allocate is bounded by the bytes it consumed, nodes(v) <= blank(T) * (1 + 65535 * consumed)
+        // (a count field of 2 bytes announces at most 65535 elements, and an exhausted input announces none)
+        size_t nodes = dv_nodes(dt, back[0]);
+        if (nodes > dt_blank(dt) * (1 + 65535 * consumed)) o.fail("decoded value has " + std::to_string(nodes) + " nodes, more than blank(T) * (1 + 65535 * consumed bytes)");
+        if (nodes > 16 * (input.size() + 1)) tag1(o, "hostile-count");
+    }
     if (got != show(dt, rv) || consumed != rpos) o.fail("decoded value/position differs from the documented layout");
     if (expect)
     {
@@ -644,10 +676,162 @@ static void op_trunc_a(const std::string &desc, const std::string &val, const st
     o.tag("truncated-archive-reader");
 }
 
+// ------------------------------------------------------------------ round 3 ops
+static bool dest_nonempty(const DT &t, const DV &v)
+{
+    switch (t.k)
+    {
+    case DT::SC: case DT::STR: case DT::BUF: return false; // overwritten as a whole
+    case DT::VEC: case DT::MAP: return !v.kids.empty();
+    default:
+        for (size_t i = 0; i < t.kids.size(); i++)
+            if (dest_nonempty(t.kids[i], v.kids.at(i))) return true;
+        return false;
+    }
+}
+// ia|is <type> <dest> <value> <rest> <k|->: serialize(v), then the IN-PLACE reader API on an object that already holds
+// <dest> (igris::deserialize(reader, obj) / deserializer::operator&).  "deserialize(serialize(v)) equals v and consumes
+// exactly the bytes serialize produced" - whatever the object held before.  With <k> the reader is given the first k
+// bytes only: the result is a function of the supplied bytes (archive stack: and of nothing else).
+static void op_into(char st, const std::string &desc, const std::string &dests, const std::string &val,
+                    const std::string &resthex, const std::string &ks, out &o)
+{
+    stack_iface &S = stack_of(st);
+    DT dt;
+    DV dest, dv;
+    if (!dt_of(desc, dt) || !dv_of(dt, dests, dest) || !dv_of(dt, val, dv)) { o.result = "bad-op"; o.fail("unparsable op"); return; }
+    if (!S.has(desc)) { o.result = "unsupported"; o.fail("type not in the harness family: " + desc); return; }
+    tag_value(dt, dv, o);
+    bytes rest = unhex(resthex);
+    bytes enc = S.encode_seq({desc}, {dv});
+    bytes ref;
+    ref_enc(dt, dv, ref);
+    if (enc != ref) o.fail("encoded bytes differ from the documented layout");
+    bytes input = enc;
+    input.insert(input.end(), rest.begin(), rest.end());
+    bool cut = ks != "-";
+    if (cut) input.resize(std::min<size_t>(input.size(), strtoull(ks.c_str(), 0, 10)));
+    exact_buf eb(input);
+    size_t consumed = 0;
+    DV back = S.decode_into(desc, dest, eb.p, eb.n, consumed);
+    std::string got = show(dt, back);
+    o.result = hex(enc) + " " + got + " " + std::to_string(consumed);
+    tag1(o, dest_nonempty(dt, dest) ? "dest-nonempty" : "dest-blank");
+    if (!cut || input.size() >= enc.size())
+    {
+        if (got != val) o.fail("deserialize into an existing object: deserialize(serialize(v)) != v for " + desc + " (destination held " + (dests.size() < 60 ? dests : dests.substr(0, 60) + "...") + ")");
+        if (consumed != enc.size()) o.fail("consumed " + std::to_string(consumed) + " bytes, serialize produced " + std::to_string(enc.size()));
+    }
+    else
+    {
+        tag1(o, "truncated");
+        if (consumed > input.size()) o.fail("reader position beyond the supplied bytes");
+        exact_buf e2(input);
+        size_t c2 = 0;
+        if (show(dt, S.decode_into(desc, dest, e2.p, e2.n, c2)) != got || c2 != consumed) o.fail("two decodes of the same bytes into the same object differ");
+        if (st == 'a')
+        {
+            DV rv;
+            size_t rpos = 0;
+            ref_dec(dt, input.data(), input.size(), rpos, true, rv);
+            if (got != show(dt, rv) || consumed != rpos) o.fail("truncated decode into an existing object is not the function of the supplied bytes the reference computes (missing bytes are zero)");
+        }
+    }
+}
+
+// tseqa|tseqs <k> (<type> <value>)+: several values written by ONE writer, the input cut to k bytes, read back by ONE
+// reader that is used again after it has hit the end of its input
+static void op_tseq(char st, const std::vector<std::string> &descs, const std::vector<std::string> &vals, const std::string &ks, out &o)
+{
+    stack_iface &S = stack_of(st);
+    std::vector<DT> dts(descs.size());
+    std::vector<DV> dvs(descs.size());
+    for (size_t i = 0; i < descs.size(); i++)
+    {
+        if (!dt_of(descs[i], dts[i]) || !dv_of(dts[i], vals[i], dvs[i])) { o.result = "bad-op"; o.fail("unparsable op"); return; }
+        if (!S.has(descs[i])) { o.result = "unsupported"; o.fail("type not in the harness family: " + descs[i]); return; }
+    }
+    bytes enc = S.encode_seq(descs, dvs);
+    size_t k = std::min<size_t>(strtoull(ks.c_str(), 0, 10), enc.size());
+    bytes pre(enc.begin(), enc.begin() + k);
+    exact_buf eb(pre);
+    size_t consumed = 0;
+    std::vector<DV> back = S.decode_seq(descs, eb.p, eb.n, consumed);
+    size_t rpos = 0;
+    for (size_t i = 0; i < descs.size(); i++)
+    {
+        std::string got = show(dts[i], back[i]);
+        o.result += (i ? " " : "") + got;
+        DV rv;
+        ref_dec(dts[i], pre.data(), pre.size(), rpos, true, rv);
+        if (got != show(dts[i], rv)) o.fail("value " + std::to_string(i) + " read by a reader that already hit the end of its input differs from the reference (missing bytes are zero)");
+    }
+    o.result += " " + std::to_string(consumed);
+    if (consumed != rpos || consumed > k) o.fail("reader position differs from the reference / is beyond the supplied bytes");
+    o.tag("reader-reused-after-end");
+    if (k < enc.size()) tag1(o, "truncated");
+}
+
+// widths of the counters / size parameters the model embeds, read out of the compiled code
+std::string a_consts();
+std::string s_consts();
+
+static void run_op(const std::vector<std::string> &w, const std::string &, out &o);
+// ops run BEFORE main() (static-initialisation order): a harness object of init_priority(101) executes these lines
+// through run_op from its constructor and keeps result + oracle; `pm <i> <op...>` reports them later
+static const char *const PM_OPS[] = {
+    "a T(V(str),u8,V(u8)) ([\"6162\",\"\"],07,[01,02]) ff",
+    "s V(S(u8,u8,u32)) [(01,02,00000003),(ff,fe,80000000)] 00",
+    "a M(str,i32) {\"61\":00000001,\"6162\":ffffffff} -",
+    "tb str \"616263\" all",
+    "ts V(u16) [0001,0002] all",
+    "ia S(V(u8),i16,M(u8,u8)) ([09],0001,{02:03}) ([],0000,{}) - -",
+    "sizes",
+    "consts",
+};
+struct premain_t
+{
+    std::vector<std::string> res, ora;
+    premain_t()
+    {
+        for (const char *l : PM_OPS)
+        {
+            out o;
+            run_op(words(l), l, o);
+            res.push_back(o.result);
+            ora.push_back(o.oracle);
+        }
+    }
+};
+static premain_t g_premain __attribute__((init_priority(101)));
+static int g_main_started = 0;
+
 static void run_op(const std::vector<std::string> &w, const std::string &, out &o)
 {
     if (w.empty()) { o.result = "bad-op"; return; }
     const std::string &op = w[0];
+    if (op == "pm" && w.size() >= 3)
+    {
+        size_t i = strtoull(w[1].c_str(), 0, 10);
+        std::string line;
+        for (size_t j = 2; j < w.size(); j++) line += (j > 2 ? " " : "") + w[j];
+        if (i >= sizeof PM_OPS / sizeof *PM_OPS || line != PM_OPS[i]) { o.result = "bad-op"; o.fail("pm: not the op the pre-main object ran"); return; }
+        o.result = g_premain.res[i];
+        o.oracle = g_premain.ora[i];
+        out now;
+        run_op(std::vector<std::string>(w.begin() + 2, w.end()), line, now);
+        if (now.result != o.result) o.fail("the same op gives another result before main() than after");
+        o.tag("pre-main");
+        return;
+    }
+    if (op == "consts" && w.size() == 1) { o.result = a_consts() + " " + s_consts(); return; }
+    if ((op == "ia" || op == "is") && w.size() == 6) return op_into(op[1], w[1], w[2], w[3], w[4], w[5], o);
+    if ((op == "tseqa" || op == "tseqs") && w.size() >= 4 && w.size() % 2 == 0)
+    {
+        std::vector<std::string> ds, vs;
+        for (size_t i = 2; i + 1 < w.size(); i += 2) { ds.push_back(w[i]); vs.push_back(w[i + 1]); }
+        return op_tseq(op[4], ds, vs, w[1], o);
+    }
     if (op == "sizes" && w.size() == 1)
     {
         // length of the real encoding of each scalar type
@@ -885,10 +1069,31 @@ template <class F> static void all_seqs(size_t alpha, size_t maxlen, F f)
     }
 }
 
+__attribute__((optimize("O0"))) // the generator is the largest function of this file: compile time matters, its run time (1 s) does not
 static void gen(rng &r, const std::string &tier)
 {
     bool th = tier == "thorough";
     std::vector<std::string> fa = stack_a().descs(), fs = stack_s().descs();
+    if (tier == "golden")
+    {
+        // not part of a check run: prints, for EVERY registered type of both stacks, round-trip ops on a fixed value grid
+        // (own generator state, independent of the seed).  Their results, recorded with the library as it is today, are
+        // corpus/C09/golden3.ops (see notes/C09.md, "Extension round 3").
+        rng g(20260930);
+        for (int st = 0; st < 2; st++)
+            for (auto &d : st ? fs : fa)
+            {
+                DT t;
+                dt_of(d, t);
+                for (int i = 0; i < 3; i++)
+                {
+                    DV v = gen_val(t, g, i == 0 ? 0 : i == 1 ? 2 : 5);
+                    if (!st) v = canon_a(d, t, v);
+                    printf("%c %s %s -\n", st ? 's' : 'a', d.c_str(), show(t, v).c_str());
+                }
+            }
+        return;
+    }
     puts("sizes");
     // (1) exhaustive / boundary scalars on both stacks
     for (int sc = 0; sc < 10; sc++)
@@ -1251,6 +1456,107 @@ static void gen(rng &r, const std::string &tier)
             int k = (int)r.range(1, 4);
             for (int j = 0; j < k; j++) ns += (j ? "," : "") + std::to_string(sz[r.below(7)]);
             printf("sl %s %s\n", hex(gen_bytes(r, r.below(20))).c_str(), ns.c_str());
+        }
+    }
+    // (9) round 3
+    puts("consts");
+    for (size_t i = 0; i < sizeof PM_OPS / sizeof *PM_OPS; i++) printf("pm %zu %s\n", i, PM_OPS[i]);
+    // decode INTO an object that already holds a value (blank / non-empty), full and truncated inputs
+    {
+        const char *da[] = {"V(u8)", "V(str)", "V(V(u8))", "M(u8,u8)", "M(str,i32)", "P(V(u8),M(u8,u8))", "T(V(str),u8,V(u8))", "S(V(u8),i16,M(u8,u8))",
+                            "S(V(u8),u16,V(u16))", "V(S(V(u8),i16,M(u8,u8)))", "M(u8,S(V(u8),u16,V(u16)))", "S(u8,u8,u32)", "V(S(u8,u8,u32))", "str", "u32",
+                            "S(u16,V(u32),S(u8,i32,i16),f64)", "M(u16,V(u8))", "V(M(u8,u8))", "V(u32)"};
+        const char *ds[] = {"V(u8)", "V(V(u8))", "S(V(u8),u16,V(u16))", "V(S(V(u8),u16,V(u16)))", "S(u8,u8,u32)", "V(S(u8,u8,u32))", "V(V(S(u8,u8,u32)))", "u32",
+                            "S(u16,V(u32),S(u8,i32,i16),f64)", "V(V(V(u16)))", "V(u32)"};
+        for (int st = 0; st < 2; st++)
+            for (size_t di = 0; di < (st ? sizeof ds / sizeof *ds : sizeof da / sizeof *da); di++)
+            {
+                const char *d = st ? ds[di] : da[di];
+                DT t;
+                dt_of(d, t);
+                for (int i = 0; i < (th ? 80 : 6); i++)
+                {
+                    DV dest = i % 3 == 0 ? gen_val(t, r, 0) : gen_val(t, r, 4);
+                    DV v = gen_val(t, r, i % 2 ? 3 : 8);
+                    if (!st) v = canon_a(d, t, v);
+                    bytes e;
+                    ref_enc(t, v, e);
+                    std::string k = i % 4 == 3 ? std::to_string(r.below(e.size() + 1)) : "-";
+                    printf("i%c %s %s %s %s %s\n", st ? 's' : 'a', d, show(t, dest).c_str(), show(t, v).c_str(), k == "-" ? gen_rest(r).c_str() : "-", k.c_str());
+                }
+            }
+    }
+    // ONE reader over a truncated sequence: used again after it has hit the end
+    for (int i = 0; i < (th ? 800 : 50); i++)
+    {
+        bool a = i % 2 == 0;
+        auto &fam = a ? fa : fs;
+        int n = (int)r.range(2, 4);
+        std::string items;
+        bytes e;
+        for (int k = 0; k < n; k++)
+        {
+            const std::string &d = fam[r.below(fam.size())];
+            if (d == "buf" || d.find("b8") != std::string::npos) { k--; continue; }
+            if (a && d.find("M(") != std::string::npos && (d.find("f32") != std::string::npos || d.find("f64") != std::string::npos)) { k--; continue; }
+            DT t;
+            dt_of(d, t);
+            DV v = a ? canon_a(d, t, gen_val(t, r, 4)) : gen_val(t, r, 4);
+            ref_enc(t, v, e);
+            items += " " + d + " " + show(t, v);
+        }
+        printf("%s %zu%s\n", a ? "tseqa" : "tseqs", (size_t)r.below(e.size() + 1), items.c_str());
+    }
+    // inputs of 300 KiB and more (the routines are linear)
+    {
+        DT tv, ts;
+        dt_of("V(u64)", tv); dt_of("V(str)", ts);
+        emit_rt('a', "V(u64)", tv, vec_of(6, 40000, r, false), gen_rest(r));
+        emit_rt('s', "V(u64)", tv, vec_of(6, 40000, r, true), gen_rest(r));
+        DV v;
+        for (size_t n : {(size_t)65535, (size_t)65534, (size_t)65535, (size_t)65000, (size_t)65535}) v.kids.push_back(DV::str(gen_bytes(r, n)));
+        emit_rt('a', "V(str)", ts, v, gen_rest(r));
+        DT t32;
+        dt_of("V(u32)", t32);
+        emit_rt('a', "V(u32)", t32, vec_of(4, 20000, r, false), gen_rest(r)); // 80 000 payload bytes, 20 000 elements
+        emit_rt('s', "V(u32)", t32, vec_of(4, 20000, r, true), gen_rest(r));
+    }
+    // hostile inputs: counts far larger than the remaining input, nested
+    {
+        const char *ha[][2] = {{"V(u8)", "ffff"}, {"V(V(u8))", "ffffffff"}, {"V(V(V(u16)))", "ffffffffffff"}, {"str", "ffff"}, {"V(str)", "ffffffff"},
+                               {"M(u8,u8)", "ffff"}, {"M(u8,u8)", "ffff0102030405"}, {"V(M(u8,u8))", "ffffffff"}, {"V(u32)", "05000102030405"},
+                               {"V(V(u8))", "ffffffff0102030405060708"}, {"M(str,i32)", "ffffffff"}, {"V(S(u8,i32,i16))", "ff7f"}, {"buf", "ffff0102"},
+                               {"V(P(i8,i32))", "ffff01"}, {"M(u16,V(u8))", "ffff0100ffff"}};
+        for (auto &h : ha) printf("da %s %s\n", h[0], h[1]);
+        const char *hs[][2] = {{"V(u8)", "ffff"}, {"V(V(u8))", "ffffffff"}, {"V(V(V(u16)))", "ffffffffffff"}, {"V(S(u8,u8,u32))", "ff3f"},
+                               {"V(u32)", "05000102030405"}, {"V(V(u8))", "ffffffff0102030405060708"}, {"V(S(V(u8),u16,V(u16)))", "ff1fffff"}, {"V(u64)", "ff"}};
+        for (auto &h : hs) printf("ds %s %s\n", h[0], h[1]);
+        for (int i = 0; i < (th ? 300 : 20); i++)
+        {
+            bool a = i % 2 == 0;
+            const char *ta[] = {"V(u8)", "V(V(u8))", "V(str)", "V(i16)", "M(u8,u8)", "V(P(i8,i32))", "T(V(str),u8,V(u8))"};
+            const char *tsx[] = {"V(u8)", "V(V(u8))", "V(u16)", "V(S(u8,u8,u32))", "V(V(V(u16)))", "S(V(u8),u16,V(u16))"};
+            const char *d = a ? ta[r.below(7)] : tsx[r.below(6)];
+            size_t n = 2 + r.below(10);
+            bytes b(n);
+            for (auto &x : b) x = r.chance(50) ? 0xff : r.chance(50) ? (uint8_t)r.below(4) : (uint8_t)r.next();
+            b[1] = r.chance(70) ? (uint8_t)r.below(64) : (a ? 0xff : 0x7f); // outer count up to 65535 (archive) / 32767 (serializer stack), mostly <= 16383
+            printf("d%c %s %s\n", a ? 'a' : 's', d, hex(b).c_str());
+        }
+    }
+    // probes of the recorded finding C09-count-wraps-at-65536: the ROUND-TRIP oracle on containers of 65536 elements
+    {
+        DT tv8, tm;
+        dt_of("V(u8)", tv8); dt_of("M(u16,V(u8))", tm);
+        std::string big = show(tv8, vec_of(0, 65536, r, true));
+        printf("@F:C09-count-wraps-at-65536 a V(u8) %s 05\n", big.c_str());
+        printf("@F:C09-count-wraps-at-65536 s V(u8) %s 05\n", big.c_str());
+        printf("@F:C09-count-wraps-at-65536 seqa - V(u8) %s u8 05\n", big.c_str());
+        if (th)
+        {
+            DV m;
+            for (size_t i = 0; i < 65536; i++) { DV e; e.kids.push_back(DV::scalar(i)); e.kids.push_back(DV()); m.kids.push_back(e); }
+            printf("@F:C09-count-wraps-at-65536 a M(u16,V(u8)) %s -\n", show(tm, m).c_str());
         }
     }
     // (8) probes of the recorded finding C09-archive-reader-unbounded: the archive reader on a truncated encoding
